@@ -433,6 +433,26 @@ theorem runSccs_spec (c : Caps) (h : c.WF) (es : List SccEnv) : OutOk c (runSccs
     unfold runSccs
     exact sccsStep_spec c _ _ (runScc_spec c h e) ih
 
+theorem runBatch_cases (c : Caps) (env : Env) :
+    (env.usageError = true ∧ runBatch c env = (⟨2, none⟩, Counters.zero)) ∨
+    (env.usageError = false ∧ env.raisesEarly = true ∧ runBatch c env = (⟨2, some .internalError⟩, Counters.zero)) ∨
+    (env.usageError = false ∧ env.raisesEarly = false ∧ env.loadBlocker = true ∧
+      runBatch c env = (⟨exitCode env.nMessages env.nNotes true, none⟩, Counters.zero)) ∨
+    (env.usageError = false ∧ env.raisesEarly = false ∧ env.loadBlocker = false ∧
+      runBatch c env = batchEnd env (runSccs c env.sccs)) := by
+  unfold runBatch
+  cases hu : env.usageError <;> cases he : env.raisesEarly <;> cases hl : env.loadBlocker <;> simp
+
+theorem batchEnd_cases (env : Env) (r : SccOut × Counters) :
+    (r.1 = .ok ∧ batchEnd env r = (⟨exitCode env.nMessages env.nNotes false, none⟩, r.2)) ∨
+    (r.1 = .blocked ∧ batchEnd env r = (⟨exitCode env.nMessages env.nNotes true, none⟩, r.2)) ∨
+    (∃ b, r.1 = .bad b ∧ batchEnd env r = (⟨2, some b⟩, r.2)) := by
+  unfold batchEnd
+  cases h : r.1 with
+  | ok => left; simp
+  | blocked => right; left; simp
+  | bad b => right; right; exact ⟨b, rfl, rfl⟩
+
 /-! ### constant folding -/
 
 theorem fold_unguarded (e : CExpr) : e.fold none = some e.eval := by
